@@ -108,6 +108,8 @@ func c09(args []string) error {
 		alpha := "ACGT"
 		if r.Intn(5) == 0 {
 			alpha = "ACGTNRYacgt"
+		} else if r.Intn(4) == 0 {
+			alpha = "ACGTACGTACGTRYSWKMBDHVNdvbh" // every IUPAC code: the whole built-in matrix is exercised
 		}
 		if prot {
 			alpha = "ARNDCQEGHILKMFPSTWYV"
@@ -116,6 +118,10 @@ func c09(args []string) error {
 			}
 		}
 		l1, l2 := 1+r.Intn(12), 1+r.Intn(12)
+		if r.Intn(4) == 0 {
+			// longer pairs: rare tie patterns of the gap recurrences need room
+			l1, l2 = 12+r.Intn(30), 12+r.Intn(30)
+		}
 		s1 := randSeqOver(alpha, l1)
 		s2 := randSeqOver(alpha, l2)
 		// related sequences: s2 is a mutated copy of a window of s1 with an indel
